@@ -92,6 +92,11 @@ int main(int argc, char** argv) {
             auto axisOf = [&](const mj::Value& a) { const double sc = std::pow(5.0, a["e"].dbl()); return UnitVec3(Vec3(a["n"][0].dbl() / sc, a["n"][1].dbl() / sc, a["n"][2].dbl() / sc)); };
             for (auto& k : c["cons"].arr()) {
                 const string t = k["type"].str(); MobilizedBody& b1 = mb[(int)k["b1"].num()];
+                if (t == "cang" && k.has("grp")) {      // part of a ConstantOrientation: one library constraint for the three spec entries
+                    if (k["part"].num() == 0) { cons.push_back(Constraint::ConstantOrientation(b1, frameRot(k["RB"]), mb[(int)k["b2"].num()], frameRot(k["RF"]))); cons.back().setDisabledByDefault(true); }
+                    else cons.push_back(Constraint());       // placeholder (empty handle) keeping the indices aligned
+                    continue;
+                }
                 if (t == "pip") cons.push_back(Constraint::PointInPlane(b1, axisOf(k["n"]), k["h"].dbl(), mb[(int)k["b2"].num()], vec(k["st"])));
                 else if (t == "cang") cons.push_back(Constraint::ConstantAngle(b1, axisOf(k["a1"]), mb[(int)k["b2"].num()], axisOf(k["a2"]), std::acos(k["cosn"].dbl() / std::pow(5.0, k["cose"].dbl()))));
                 else if (t == "cspeed") cons.push_back(Constraint::ConstantSpeed(b1, MobilizerUIndex((int)k["k"].num() - 1), k["s"].dbl()));
@@ -395,16 +400,19 @@ int main(int argc, char** argv) {
                 if (c.has("euler") && c["euler"].num()) matter.setUseEulerAngles(sc, true);
                 system.realizeModel(sc);
                 int nen = 0;
-                for (size_t k = 0; k < cons.size(); ++k) if (c["cons"][(int)k]["on"].num()) { cons[k].enable(sc); ++nen; }
+                auto ownerOf = [&](size_t k) { const mj::Value& e = c["cons"][(int)k]; return e.has("grp") ? k - (size_t)e["part"].num() : k; };
+                auto eqOf = [&](size_t k) { const mj::Value& e = c["cons"][(int)k]; return e.has("grp") ? (int)e["part"].num() : 0; };
+                for (size_t k = 0; k < cons.size(); ++k) if (c["cons"][(int)k]["on"].num() && ownerOf(k) == k) { cons[k].enable(sc); ++nen; }
                 system.realizeModel(sc); setCoords(sc, c["q"], c["u"]);
                 system.realize(sc, Stage::Velocity);
                 js << ",\"cons\":[";
                 for (size_t k = 0; k < cons.size(); ++k) {
                     js << (k ? "," : "");
                     if (!c["cons"][(int)k]["on"].num()) { js << "null"; continue; }
-                    int mp, mv, ma; cons[k].getNumConstraintEquationsInUse(sc, mp, mv, ma);
-                    const Vector pe = cons[k].getPositionErrorsAsVector(sc), ve = cons[k].getVelocityErrorsAsVector(sc);
-                    js << "{\"mp\":" << mp << ",\"mv\":" << mv << ",\"perr\":" << num(mp ? pe[0] : 0.0) << ",\"verr\":" << num(ve[0]) << "}";
+                    const Constraint& ck = cons[ownerOf(k)]; const int eq = eqOf(k);
+                    int mp, mv, ma; ck.getNumConstraintEquationsInUse(sc, mp, mv, ma);
+                    const Vector pe = ck.getPositionErrorsAsVector(sc), ve = ck.getVelocityErrorsAsVector(sc);
+                    js << "{\"mp\":" << mp << ",\"mv\":" << mv << ",\"perr\":" << num(mp ? pe[eq] : 0.0) << ",\"verr\":" << num(ve[eq]) << "}";
                 }
                 js << "]";
                 Matrix G; matter.calcG(sc, G);
@@ -434,7 +442,7 @@ int main(int argc, char** argv) {
                     js << ",\"cbiasU2\":["; for (int r = 0; r < m; ++r) js << (r ? "," : "") << num(bias2[r]);
                     js << "],\"verrU2\":[";
                     bool first = true;
-                    for (size_t k = 0; k < cons.size(); ++k) { if (!c["cons"][(int)k]["on"].num()) continue; js << (first ? "" : ",") << num(cons[k].getVelocityErrorsAsVector(sc2)[0]); first = false; }
+                    for (size_t k = 0; k < cons.size(); ++k) { if (!c["cons"][(int)k]["on"].num()) continue; js << (first ? "" : ",") << num(cons[ownerOf(k)].getVelocityErrorsAsVector(sc2)[eqOf(k)]); first = false; }
                     js << "]";
                     // back to the first speeds for the dynamics below
                     for (int i = 0; i < N; ++i) for (int k = 0; k < mb[i + 1].getNumU(sc2); ++k) mb[i + 1].setOneU(sc2, k, c["u"][i][k].dbl());
